@@ -14,7 +14,10 @@
     `Table.Same` (every column / index of one side has a namesake on the other that `Table.Diff` compares equal, the
     foreign-key names agree; column order and index-type spelling are free), `Migration.Diff` returns, leaves no action
     on any column or index, and `MigrationUp` and `MigrationDown` both return and print nothing (Proofs/DiffSame.lean);
-  * `self_diff_empty` — in particular a model diffed against a model loaded the same way gives an empty migration.
+  * `self_diff_empty` — in particular a model diffed against a model loaded the same way gives an empty migration;
+  * `same_script_empty` — **from scripts**: for every script (any length, vocabulary of `Stmt.elemSafe`) the reference
+    engine accepts, loading it on both sides with the MySQL reader model and diffing returns, and `MigrationUp` /
+    `MigrationDown` return and print nothing (reader fidelity C05.indexes_and_foreign_keys gives `Inv` and `Fresh`).
 
   Missing: that two *scripts* with equal reference schemas load into `Same` models — reader fidelity for option values
   under the two spellings of a primary key (recorded finding `pk-inline-vs-table-level`), indexes and foreign keys.
@@ -23,6 +26,7 @@
 -/
 import SqlizeModel.Proofs.Quiet
 import SqlizeModel.Proofs.DiffSame
+import SqlizeModel.Proofs.FidelityElems
 import SqlizeModel.Impl.Api
 import SqlizeModel.Spec.Scope
 
@@ -80,6 +84,28 @@ theorem equal_content_empty (g : Globals) (d : Dialect) (m o : Migration) (h : m
 theorem self_diff_empty (g : Globals) (d : Dialect) (m : Migration) (h : m.Inv) (hf : m.Fresh) :
     ∃ dm, m.diff d m = .ok dm ∧ dm.migrationUp g = .ok (dm, []) ∧ dm.migrationDown g = .ok (dm, []) :=
   Migration.same_prints_nothing g d m m h h hf hf (Migration.same_refl d m)
+
+/-- the same schema loaded twice from one script: empty migration in both directions, no panic -/
+theorem same_script_empty (g : Globals) (hg : g.dialect = .mysql) (rc : Bool) (ss : List Stmt) (db : DB)
+    (hs : ss.all Stmt.elemSafe = true) (he : execAll rc [] ss = some db) :
+    ∃ d, loadAndDiff g ss ss = .ok d ∧ d.migrationUp g = .ok (d, []) ∧ d.migrationDown g = .ok (d, []) := by
+  obtain ⟨m, hm, _, _, hi, _, hf⟩ := ReaderMysql.fidelity_elems rc ss db hs he
+  have hr : readScript g {} ss = .ok m := by unfold readScript; rw [hg]; exact hm
+  obtain ⟨d, hd, hu, hdn⟩ := self_diff_empty g g.dialect m hi hf
+  refine ⟨d, ?_, hu, hdn⟩
+  unfold loadAndDiff
+  simp only [hr, bind, Except.bind]
+  exact hd
+
+-- non-vacuity of `same_script_empty`: a script with keys, indexes, a dropped column and a modify meets the hypotheses
+def exScript : List Stmt :=
+  [.createTable "u" 0 [{ name := "id", typ := "int(11)" }] ["id"],
+   .createTable "t" 0 [{ name := "a", typ := "int(11)" }, { name := "b", typ := "int(11)" }, { name := "c", typ := "text" }] [],
+   .createIndex "t" "i_ab" ["a", "b"] true "",
+   .addFk "t" "fk_a" "a" "u" "id",
+   .modifyColumn "t" { name := "c", typ := "longtext" },
+   .dropColumn "t" "b"]
+example : exScript.all Stmt.elemSafe = true ∧ (execAll true [] exScript).isSome = true := by decide
 
 -- non-vacuity of `equal_content_empty`: two tables built by the primitives in different column orders, one spelling the
 -- index type out, the other not; both with a foreign key — they are `Same`, and the diff is computed and silent
